@@ -23,7 +23,6 @@ import (
 	"io"
 	"net"
 	"net/http"
-	"net/http/httptest"
 	"os"
 	"os/exec"
 	"sort"
@@ -214,10 +213,10 @@ func TestVerifN2HRedirectBin(t *testing.T) {
 	r := vfNewRand(0xC3C3)
 	n := vfEnvInt("VERIF_N", 160)
 	stub := &vfRdStub{script: make([]string, vfRdEndpoints)}
-	srv := httptest.NewServer(stub)
+	srv := vfHTTPServer(stub)
 	defer srv.Close()
 	stub.base = srv.URL
-	hl, err := net.Listen("tcp", "127.0.0.1:0")
+	hl, err := vfListen()
 	if err != nil {
 		t.Fatal(err)
 	}
